@@ -1,4 +1,5 @@
 import MidoModel.CharsetScope
+import MidoProofs.Lemmas.Utf8
 /-!
   C17 — text encoding follows the file charset and never leaks out of a call.
 -/
@@ -105,6 +106,17 @@ theorem C17_utf8_roundtrip (s : List Nat) (bs : List Nat) (h : encodeText .utf8 
           simp [hc, hr] at hm; subst hm
           simp only [flatten_cons]
           rw [utf8_cp c b _ hc, ih ps hr]; rfl
+
+/-- **UTF-8 is canonical**: whatever bytes the strict decoder accepts are exactly the encoding of the text it returns
+    (no overlong forms, surrogates or values above U+10FFFF get through), so a text read from a file is written back as
+    the same bytes. -/
+theorem C17_utf8_canonical (bs s : List Nat) (h : decodeText .utf8 bs = .ok s) : encodeText .utf8 s = .ok bs :=
+  decodeText_utf8_rt bs s h
+
+/-- 'é€𝄞' (2-, 3- and 4-byte forms) next to an ASCII letter -/
+example : encodeText .utf8 [97, 233, 8364, 119070] = .ok [97, 0xC3, 0xA9, 0xE2, 0x82, 0xAC, 0xF0, 0x9D, 0x84, 0x9E] ∧
+    decodeText .utf8 [0xC0, 0x80] = .error .UnicodeError ∧ decodeText .utf8 [0xED, 0xA0, 0x80] = .error .UnicodeError := by
+  decide +kernel
 
 /-- latin1 and ascii round trips -/
 theorem C17_latin_roundtrip (cs : Charset) (hcs : cs ≠ .utf8) (s bs : List Nat)
